@@ -602,7 +602,10 @@ impl Runner {
         take_allocs();
         let rec = std::mem::take(&mut self.received);
         drop(rec);
-        let (c, d) = with(|w| (w.tw_clones, w.tw_drops));
+        let (c, d) = (
+            TW_CLONES.load(std::sync::atomic::Ordering::SeqCst),
+            TW_DROPS.load(std::sync::atomic::Ordering::SeqCst),
+        );
         ev(format!(r#"{{"e":"twsum","clones":{},"drops":{}}}"#, c, d));
         ev(r#"{"e":"end"}"#.to_string());
     }
